@@ -40,11 +40,15 @@ def build(rng):
             y = self.conv(x)
             return x + (y if not self.o1 else y.expand_as(x))
 
+    class MaskedLinear(nn.Linear):   # subclass of a supported layer: class-name patterns are searched anywhere in the name
+        pass
+
     kind = rng.choice(['mlp', 'conv', 'conv_o1', 'shared'])
     if kind == 'mlp':
         a, b, c = rng.randint(2, 5), rng.randint(2, 5), rng.randint(1, 4)
         layers = [('fc1', nn.Linear(a, b)), ('bn', nn.BatchNorm1d(b)), ('act', nn.ReLU()), ('scale', Scale()),
-                  ('fc2', nn.Linear(b, b, bias=rng.random() < 0.5)), ('ln', nn.LayerNorm(b)), ('head', nn.Linear(b, c))]
+                  ('fc2', nn.Linear(b, b, bias=rng.random() < 0.5)), ('ln', nn.LayerNorm(b)),
+                  ('head', (MaskedLinear if rng.random() < 0.5 else nn.Linear)(b, c))]
         x_shape = [rng.randint(2, 5), a]
     elif kind == 'conv':
         c = rng.randint(1, 3)
@@ -68,7 +72,7 @@ def build(rng):
     for name, m in layers:
         if isinstance(m, (nn.Linear, nn.Conv2d)) and rng.random() < 0.2:
             ps = list(m.parameters()); q = rng.choice(ps); q.requires_grad_(False); frozen.append(name)
-    skip = rng.sample(['fc2', '^conv2', 'head$', 'LayerNorm', 's1', 'Conv2d$'], rng.choice([0, 0, 1, 2]))
+    skip = rng.sample(['fc2', '^conv2', 'head$', 'LayerNorm', 's1', 'Conv2d$', 'dLinear', 'onv2'], rng.choice([0, 0, 1, 2]))
     return kind, model, x_shape, skip, frozen
 
 
